@@ -160,6 +160,8 @@ async def consumer_op(prep, run, mode, pos, exc, res):
                 res["end"] = "stop"
                 break
             n += 1
+            if n > 3000:
+                raise RuntimeError("tool over finite inputs does not end")
         else:
             res["end"] = "partial"
     except Cancel:
